@@ -374,7 +374,10 @@ func (sc *serverConn) readLoop() (err error) {
 
 	for err == nil {
 		sc.vs.ev(verifEvReadIter)
-		fr, err = ReadFrameFromWithSize(sc.br, sc.clientS.frameSize)
+		// The limit on what we receive is the one we advertised, not the one
+		// the client advertised for what it receives (which, before its first
+		// SETTINGS frame, was 0: no limit at all).
+		fr, err = ReadFrameFromWithSize(sc.br, sc.st.frameSize)
 		if err != nil {
 			if errors.Is(err, ErrUnknownFrameType) {
 				// Unknown frame types are discarded, not rejected (RFC 7540
@@ -444,9 +447,10 @@ func (sc *serverConn) readLoop() (err error) {
 		case FrameSettings:
 			st := fr.Body().(*Settings)
 			if !st.IsAck() { // if it has ack, just ignore
-				sc.handleSettings(st)
-				// forward to handleStreams so the INITIAL_WINDOW_SIZE delta is
-				// applied to open streams in frame order.
+				// Applied and acknowledged by handleStreams, which owns the
+				// HPACK encoder and the stream windows: the acknowledgement
+				// must not overtake the effect, and resizing the encoder's
+				// table from here raced with the encoding of responses.
 				sc.vs.ev(verifEvForwarded)
 				if !sc.forward(fr) {
 					return errConnClosed
@@ -736,6 +740,8 @@ loop:
 				switch fr.Type() {
 				case FrameSettings:
 					st := fr.Body().(*Settings)
+					sc.handleSettings(st)
+
 					if st.hasWindowSize {
 						delta := int64(int32(st.windowSize)) - int64(curInitialWindow)
 						curInitialWindow = int32(st.windowSize)
